@@ -37,6 +37,7 @@ func cmdRun(args []string) {
 	fs.IntVar(&opts.maxPaths, "maxpaths", opts.maxPaths, "max paths")
 	maxProg := fs.Bool("maxprog", false, "maximal progress timers")
 	frozen := fs.Bool("frozen", false, "frozen clock")
+	trace := fs.String("trace", "", "replay the first violation whose message contains this text with call tracing")
 	smtlog := fs.String("smtlog", "", "log solver input of worker 0 to file")
 	fs.Parse(args)
 	rest := fs.Args()
@@ -62,12 +63,29 @@ func cmdRun(args []string) {
 		for _, m := range res.inconcl {
 			fmt.Println("  INCONCLUSIVE:", m)
 		}
-		for i, v := range res.violations {
-			if i >= 4 {
-				break
+		seenMsg := map[string]int{}
+		for _, v := range res.violations {
+			seenMsg[v.Kind+v.Msg]++
+			if seenMsg[v.Kind+v.Msg] > 1 {
+				continue
 			}
 			b, _ := json.Marshal(v.Nondet)
 			fmt.Printf("  VIOLATION %s: %s @ %s\n    nondet=%s\n    sched=%v\n", v.Kind, v.Msg, v.Pos, b, v.Sched)
+		}
+		if *trace != "" {
+			for i := range res.violations {
+				v := &res.violations[i]
+				if strings.Contains(v.Msg, *trace) {
+					fmt.Fprintf(os.Stderr, "=== trace of %s: %s\n", v.Kind, v.Msg)
+					traceNext = true
+					e.replayPinned(h, v)
+					traceNext = false
+					break
+				}
+			}
+		}
+		for k, n := range seenMsg {
+			fmt.Printf("  count %d: %s\n", n, k)
 		}
 		fmt.Println("  reached:", sortedKeys(res.reached))
 	}
